@@ -31,7 +31,7 @@ RULE = (
 )
 P_FORMS = {"cells": ["triangle", "quadrilateral", "tetrahedron", "hexahedron"], "measures": ["dS"], "arities": [0, 0, 1], "max_integrals": 2,
            "depth": 1, "maxdeg": 2, "max_qdeg": 4, "min_qdeg": 2, "manifold": 0.0, "nonaffine": 0.0, "affine_only": True, "ncoef": (1, 3),
-           "element_tags": ["P", "DG", "vecP", "vecDG"], "coef_element_tags": [["N1curl", 1], ["RT", 1], ["BDM", 1], ["N2curl", 1]], "geo": ["x", "n"], "p_scheme": 0.3, "p_vertex": 0.0, "ids": "few", "p_multiterm": 0.0,
+           "element_tags": ["P", "DG", "vecP", "vecDG"], "coef_element_tags": [["N1curl", 1], ["RT", 1], ["BDM", 1], ["N2curl", 1]], "geo": ["x", "n"], "p_scheme": 0.5, "p_vertex": 0.0, "ids": "few", "p_multiterm": 0.0,
            "nconst": (0, 1)}
 NCODES = {"triangle": 2, "quadrilateral": 2, "tetrahedron": 6, "hexahedron": 8}
 
@@ -442,7 +442,7 @@ def shard(shard, nshards, n, max_pairs, seed):
 
 def run(tier: str) -> int:
     run_ = Run(PROP, tier, "exploration", RULE)
-    n, max_pairs = (4, 64) if tier == "quick" else (thorough(12), 600)
+    n, max_pairs = (6, 64) if tier == "quick" else (thorough(12), 600)
     for part in run_shards(shard, 16, n=n, max_pairs=max_pairs, seed=verif_seed()):
         run_.merge(part)
     run_.assumptions = [
